@@ -11,14 +11,13 @@ What it does
   2. builds /verif/stress with the race detector (falls back to a plain build when -race cannot
      be built) and runs
         quick    : the random stress (persistent sessions; clean sessions only) ~6 s each and the
-                   seven probes, in parallel (about 20 s wall);
+                   eight probes, in parallel (about 20 s wall);
         thorough : more seeds, more clients, 60 s runs, delivery_mode=overlap as well;
   3. turns every `STRESS FAIL` into a violation ('oracle', replay file, '') unless an OPEN entry
      of known_findings.json (property C15) matches it through its "stress" key
-        {"mode": "probe:stop-during-connect", "kind": "leak", "match": "<optional regex on the detail>"}
+        {"mode": "probe:<name>", "kind": "leak", "match": "<optional regex on the detail>"}
      in which case `KNOWN-FINDING: property=C15 <what>` is printed instead.
-The only finding that is open at present is kf_unregistered_survives (probe stop-during-connect);
-the other five probes guard repaired defects (regressions are violations).
+No finding of C15 is open at present: every probe guards a repaired defect (a regression is a violation).
 The theorems of Props/C15.v are counted by bin/check itself (proof_obligations); this module adds
 no proof obligations of its own.
 
@@ -28,7 +27,7 @@ import os, sys, re, json, subprocess, tempfile, time, shutil
 from concurrent.futures import ThreadPoolExecutor
 
 GO = 'go1.26.8'
-PROBES = ['flood-after-disconnect', 'stop-during-connect', 'stop-vs-late-connect', 'once-deadlock', 'same-id-storm', 'slow-subscriber', 'overlap-lock-cycle']
+PROBES = ['flood-after-disconnect', 'stop-during-connect', 'stop-vs-late-connect', 'stop-vs-inflight-accept', 'once-deadlock', 'same-id-storm', 'slow-subscriber', 'overlap-lock-cycle']
 
 
 def goenv(cgo):
@@ -87,13 +86,18 @@ STOP_REQUIRED = [
     ('SShutdownWebsockets', 'SSnapshotCloseClients', 'the websocket servers must be shut down before the snapshot of srv.clients: a client accepted and registered in between is never closed nor waited for'),
     ('SLock', 'SSnapshotCloseClients', 'the snapshot must be taken under srv.mu'),
     ('SSnapshotCloseClients', 'SUnlock', 'the snapshot must be taken under srv.mu'),
+    ('SExit', 'SSnapshotCloseConnecting', 'exit() must precede the snapshot of srv.connecting'),
+    ('SCloseListeners', 'SSnapshotCloseConnecting', 'the TCP listeners must be closed before the snapshot of srv.connecting: a connection accepted in between is never closed nor waited for'),
+    ('SShutdownWebsockets', 'SSnapshotCloseConnecting', 'the websocket servers must be shut down before the snapshot of srv.connecting'),
+    ('SLock', 'SSnapshotCloseConnecting', 'the snapshot must be taken under srv.mu'),
+    ('SSnapshotCloseConnecting', 'SUnlock', 'the snapshot must be taken under srv.mu'),
     ('SUnlock', 'SStartWaiter', 'the wait must be outside srv.mu'),
     ('SStartWaiter', 'SWait', 'the waiter must be started before the select'),
     ('SUnlock', 'SWait', 'the wait must be outside srv.mu'),
     ('SWait', 'SUnload', 'plugins are unloaded after all remembered connections are closed'),
     ('SUnload', 'SOnStop', 'OnStop comes after Unload'),
 ]
-STOP_OPS = ['SDeferCloseExited', 'SExit', 'SCloseListeners', 'SShutdownWebsockets', 'SLock', 'SSnapshotCloseClients',
+STOP_OPS = ['SDeferCloseExited', 'SExit', 'SCloseListeners', 'SShutdownWebsockets', 'SLock', 'SSnapshotCloseClients', 'SSnapshotCloseConnecting',
             'SUnlock', 'SStartWaiter', 'SWait', 'SUnload', 'SOnStop']
 
 
